@@ -4,10 +4,11 @@ package main
 // exit code (cli/cli.go Run).
 //
 // The real binary (env JQAWK_BIN) is run through the `cli` request kind
-// (impl_cli.go). The model does not know `cli`: binary cases are ImplOnly and
-// every scenario also carries the equivalent library `run` request, which IS
-// compared with the model; the binary is tied to it, and to its own variants,
-// by Group relations:
+// (impl_cli.go). The model answers `cli` requests too (Model/Cli.lean: flag
+// parsing, an abstract working directory): binary cases are compared with it on
+// exit, stdout, "stderr non-empty", and the content of the -o file after the run.
+// Every scenario also carries the equivalent library `run` request; the binary
+// is tied to it, and to its own variants, by Group relations:
 //
 //   cli-wrapper  one Group per scenario; first member = the binary with an inline
 //                program; members: the library run (cli_equals_library), -f FILE
@@ -18,6 +19,11 @@ package main
 //                the generator
 //   cli-faults   missing / directory / unwritable paths, -o with several inputs or
 //                none, unreadable -f file, bad flags: exit != 0, diagnostic, no panic
+//   cli-o-existing    -o FILE onto a file that already exists (longer / equal / shorter
+//                than the new JSON, the input itself, read-only, ...) or cannot be made
+//   cli-hostile-args  selectors, program texts, file names and flag values containing
+//                commas, brackets, quotes, backslashes, blanks, dashes, '='; empty
+//                arguments; flag look-alikes after the flags ended
 
 import (
 	"fmt"
@@ -370,7 +376,7 @@ func c14Scenarios(r *rand.Rand, n int, emit func(Case)) {
 			pf := pick(r, []string{"prog.jqawk", "p", "sub/prog.awk"})
 			argv := sc.argv(r, "", sc.sels, oMode, pf, sc.fileNames())
 			emit(Case{ID: g + "/dash-f", Req: CliReq(argv, stdinData, hasStdin, append(append([]CliFile{}, disk...), CliFile{Name: pf, Data: []byte(sc.prog.text)}), ofile), Fields: c14CliFields,
-				 Group: g, GroupFields: []string{"exit", "out", "stderr", "ofile", "ofexists"},
+				Group: g, GroupFields: []string{"exit", "out", "stderr", "ofile", "ofexists"},
 				Meta: meta(argv, "-f FILE instead of the inline program"), Oracle: c14Basic, NonTrivial: c14NT})
 		}
 
@@ -380,11 +386,11 @@ func c14Scenarios(r *rand.Rand, n int, emit func(Case)) {
 			if sc.mode == "stdin" {
 				argv := sc.argv(r, sc.prog.text, sc.sels, oMode, "", []string{"named.json"})
 				emit(Case{ID: g + "/as-file", Req: CliReq(argv, nil, false, []CliFile{{Name: "named.json", Data: sc.stdin}}, ofile), Fields: c14CliFields,
-					 Group: g, GroupFields: gf, Meta: meta(argv, "the stdin bytes in a named file"), Oracle: c14Basic, NonTrivial: c14NT})
+					Group: g, GroupFields: gf, Meta: meta(argv, "the stdin bytes in a named file"), Oracle: c14Basic, NonTrivial: c14NT})
 			} else {
 				argv := sc.argv(r, sc.prog.text, sc.sels, oMode, "", nil)
 				emit(Case{ID: g + "/as-stdin", Req: CliReq(argv, sc.files[0].Data, true, nil, ofile), Fields: c14CliFields,
-					 Group: g, GroupFields: gf, Meta: meta(argv, "the file's bytes on stdin"), Oracle: c14Basic, NonTrivial: c14NT})
+					Group: g, GroupFields: gf, Meta: meta(argv, "the file's bytes on stdin"), Oracle: c14Basic, NonTrivial: c14NT})
 			}
 		}
 
@@ -670,6 +676,683 @@ func init() {
 					return ""
 				})
 			}
+		},
+	})
+}
+
+// ---------------------------------------------------------------------------------------
+// cli-o-existing: -o FILE onto a path that already exists (or cannot be created)
+// cli-hostile-args: selectors, program texts, file names and flag values full of the
+//                   characters a command-line front end might be tempted to interpret
+// ---------------------------------------------------------------------------------------
+
+// c14InProc runs a library request inside the generator (to learn, e.g., how long the JSON
+// that -o will write is, so that pre-existing files can be made longer / equal / shorter).
+func c14InProc(prog string, sels []string, files []File, wantJSON bool) Resp {
+	return ParseResp(implAnswer(RunReq(prog, sels, files, wantJSON)))
+}
+
+var c14OProgs = []string{
+	`{ }`, `{ }`, ``, `{ $ = null }`, `{ $ = 1 }`, `{ $ = $.id }`, `{ $ = [$, $, $] }`, `$ is object { $ = $.pluck("id") }`,
+	`$ is object { $.added = "a fairly long string value that makes the document grow by quite a few bytes" }`,
+	`$ is object { $.notes = 0 }`, `BEGINFILE { $ = 1 }`, `BEGINFILE { $ = {} }`, `BEGINFILE { $ = [] }`, `BEGINFILE { $ = [$, [$]] }`,
+	`{ print "seen", $index }`, `END { print "done" }`, `BEGIN { print "start" } $ is object { $.n = $index }`,
+	`{ $ = "%d 100% %s" }`,
+	// failing runs: the file must be left alone
+	`{ x = 1 / 0 }`, `{ print `, `BEGIN { exit }`, `$ is object { $.self = $ }`, `{ print "before"; x = nope() }`,
+}
+
+func c14ODoc(r *rand.Rand) string {
+	var doc string
+	switch r.Intn(5) {
+	case 0, 1:
+		n := 1 + r.Intn(4)
+		recs := make([]string, n)
+		for i := range recs {
+			recs[i] = fmt.Sprintf(`{"id": %d, "name": %s, "notes": %s}`, i+1, jsonString(pick(r, []string{"Beth", "Kathy", "é", ""})),
+				jsonString(strings.Repeat(pick(r, []string{"x", "free text ", "50% ", "ab"}), r.Intn(12))))
+		}
+		doc = "[" + strings.Join(recs, pick(r, []string{",", ",\n  ", ", "})) + "]"
+	case 2:
+		doc = fmt.Sprintf(`{"id": 7, "name": "solo", "notes": %s, "list": [1, 2, 3]}`, jsonString(strings.Repeat("n", r.Intn(80))))
+	case 3:
+		doc, _ = c02Root(r)
+	default:
+		doc = genJSON(r, defaultJSONCfg(), 0)
+	}
+	switch r.Intn(4) {
+	case 0:
+		doc += "\n"
+	case 1:
+		doc = " " + doc + strings.Repeat(" \n", r.Intn(40)) // padded: the input is longer than what -o writes
+	}
+	if chance(r, 0.08) {
+		v, _ := c02Root(r)
+		doc = v + "\n" + doc // two values: -o writes the last one
+	}
+	return doc
+}
+
+func c14Filler(n int) []byte {
+	if n <= 0 {
+		return []byte{}
+	}
+	return []byte(strings.Repeat("OLD-CONTENT-OF-THE-FILE\n", n/24+1)[:n])
+}
+
+func c14MustFail(what string) func(Resp) string {
+	return func(i Resp) string {
+		if w := c14Basic(i); w != "" {
+			return w
+		}
+		if i["exit"] == "0" {
+			return what + ": exit status 0"
+		}
+		if i["errlen"] == "0" {
+			return what + ": no diagnostic on stderr"
+		}
+		return ""
+	}
+}
+
+func c14OExisting(r *rand.Rand, n int, emit func(Case)) {
+	kinds := []string{"longer", "shorter", "equal", "longer", "inplace", "empty", "inplace", "longer-by-1", "shorter-by-1", "huge", "readonly", "dir", "missingdir", "notdir", "subdir", "devfull", "devnull", "progfile"}
+	for i := 0; i < n; i++ {
+		kind := kinds[i%len(kinds)]
+		prog := pick(r, c14OProgs)
+		doc := c14ODoc(r)
+		inName := pick(r, []string{"data.json", "in.json", "sub/in.json", "a b.json"})
+		useStdin := kind != "inplace" && chance(r, 0.3)
+		lib := []File{{Name: inName, Data: []byte(doc)}}
+		if useStdin {
+			lib[0].Name = "<stdin>"
+		}
+		ref := c14InProc(prog, nil, lib, true)
+		js, hasJS := "", false
+		if ref["class"] == "ok" && ref["json"] != "ERR" {
+			js, hasJS = string(ref.Bytes("json")), true
+		}
+		L := len(js)
+		if !hasJS {
+			L = 10 + r.Intn(60)
+		}
+		var disk []CliFile
+		if !useStdin {
+			disk = append(disk, CliFile{Name: inName, Data: []byte(doc)})
+		}
+		target := pick(r, []string{"out.json", "result", "o,1.json", "-o.json"})
+		var pre []byte
+		preExists, writable, modelled := true, true, true
+		progFile := ""
+		switch kind {
+		case "longer":
+			pre = c14Filler(L + 2 + r.Intn(3*L+40))
+		case "longer-by-1":
+			pre = c14Filler(L + 1)
+		case "shorter":
+			pre = c14Filler(1 + r.Intn(L+1)*9/10)
+		case "shorter-by-1":
+			pre = c14Filler(L - 1)
+		case "equal":
+			pre = c14Filler(L)
+		case "huge":
+			pre = c14Filler(70000 + r.Intn(5000))
+		case "empty":
+			pre = []byte{}
+		case "inplace":
+			target, pre = inName, []byte(doc)
+		case "readonly":
+			pre = c14Filler(L + 20)
+			modelled = false
+		case "dir":
+			writable = false
+		case "missingdir":
+			target, preExists, writable = "nodir/"+target, false, false
+		case "notdir":
+			// a path through a regular file
+			target, preExists, writable = "blocker/out.json", false, false
+			disk = append(disk, CliFile{Name: "blocker", Data: []byte("a regular file")})
+		case "subdir":
+			// a new file in a directory that exists
+			target, preExists = "outdir/"+target, false
+			disk = append(disk, CliFile{Name: "outdir", Dir: true})
+		case "devfull":
+			target, preExists, modelled = "/dev/full", false, false
+		case "devnull":
+			target, preExists, modelled = "/dev/null", false, false
+		case "progfile":
+			// the program comes from a file and -o overwrites that very file
+			progFile = "prog.jqawk"
+			target, pre = progFile, []byte(prog)
+			disk = append(disk, CliFile{Name: progFile, Data: []byte(prog)})
+		}
+		switch {
+		case kind == "dir":
+			disk = append(disk, CliFile{Name: target, Dir: true})
+		case kind == "inplace" || kind == "progfile":
+		case preExists:
+			disk = append(disk, CliFile{Name: target, Data: pre, ReadOnly: kind == "readonly"})
+		}
+		var stdin []byte
+		if useStdin {
+			stdin = []byte(doc)
+		}
+		mkArgv := func(o string) []string {
+			var a []string
+			a = append(a, c14Flag(r, "o", o)...)
+			if progFile != "" {
+				a = append(a, c14Flag(r, "f", progFile)...)
+			} else {
+				a = append(a, prog)
+			}
+			if !useStdin {
+				a = append(a, inName)
+			}
+			return a
+		}
+		g := fmt.Sprintf("oex-%d", i)
+		meta := func(argv []string, what string) map[string]string {
+			return metaProg(prog, "argv", strings.Join(argv, " ␣ "), "target", kind, "variant", what, "input", strconv.Quote(doc),
+				"pre-existing content", fmt.Sprintf("%d bytes", len(pre)), "JSON expected", fmt.Sprintf("%d bytes", len(js)))
+		}
+		dashArgv := mkArgv("-")
+		emit(Case{ID: g + "/o-dash", Req: CliReq(dashArgv, stdin, useStdin, disk, ""), Fields: c14CliFields, Group: g,
+			Meta: meta(dashArgv, "-o - (reference of the group)"), Oracle: c14Basic, NonTrivial: c14NT})
+		argv := mkArgv(target)
+		ofile := target
+		if strings.HasPrefix(target, "/dev/") {
+			ofile = ""
+		}
+		preCopy := append([]byte{}, pre...)
+		c := Case{ID: g + "/" + kind, Req: CliReq(argv, stdin, useStdin, disk, ofile), Fields: c14CliFields, Group: g, ImplOnly: !modelled,
+			Meta: meta(argv, "-o onto: "+kind), NonTrivial: c14NT}
+		switch {
+		case kind == "devfull":
+			c.GroupCheck = func(first, self Resp) string {
+				if first["exit"] == "0" && (self["exit"] == "0" || self["errlen"] == "0") {
+					return "writing the JSON to /dev/full fails (no space): expected a diagnostic and a non-zero exit status, got exit " + self["exit"]
+				}
+				return ""
+			}
+			c.Oracle = c14Basic
+		case kind == "devnull":
+			c.GroupCheck = func(first, self Resp) string {
+				if first["exit"] != self["exit"] {
+					return fmt.Sprintf("exit status %s with -o -, %s with -o /dev/null", first["exit"], self["exit"])
+				}
+				if fo, so := string(first.Bytes("out")), string(self.Bytes("out")); !strings.HasPrefix(fo, so) {
+					return fmt.Sprintf("stdout with -o /dev/null %q is not the program's own part of %q", so, fo)
+				}
+				return ""
+			}
+			c.Oracle = c14Basic
+		case !writable:
+			c.Oracle = c14MustFail("-o onto " + kind)
+			c.GroupCheck = func(first, self Resp) string {
+				if fo, so := string(first.Bytes("out")), string(self.Bytes("out")); !strings.HasPrefix(fo, so) {
+					return fmt.Sprintf("stdout %q is not the program's own part of the -o - output %q", so, fo)
+				}
+				return ""
+			}
+		default:
+			c.GroupCheck = func(first, self Resp) string {
+				if kind == "readonly" && self["wdenied"] == "1" {
+					if self["exit"] == "0" || self["errlen"] == "0" {
+						return "the -o file cannot be written: expected a diagnostic and a non-zero exit status"
+					}
+					if string(self.Bytes("ofile")) != string(preCopy) {
+						return "the read-only -o file was modified"
+					}
+					return ""
+				}
+				if first["exit"] != "0" || self["exit"] != "0" {
+					// a failed run: same status, same output; the file is the oracle's business
+					if first["exit"] != self["exit"] {
+						return fmt.Sprintf("exit status %s with -o -, %s with -o %s", first["exit"], self["exit"], target)
+					}
+					if fo, so := string(first.Bytes("out")), string(self.Bytes("out")); fo != so {
+						return fmt.Sprintf("failed run: stdout %q with -o -, %q with -o %s", fo, so, target)
+					}
+					return ""
+				}
+				return c14OVariants(first, "-", self, target)
+			}
+			c.Oracle = func(i Resp) string {
+				if w := c14Basic(i); w != "" {
+					return w
+				}
+				if i["exit"] != "" && i["exit"] != "0" && preExists {
+					// a failed run writes nothing: the file is as it was
+					if i["ofexists"] != "1" || string(i.Bytes("ofile")) != string(preCopy) {
+						return fmt.Sprintf("the run failed (exit %s) but the existing -o file was changed: now %d bytes %q, before %d bytes", i["exit"], len(i.Bytes("ofile")), short(string(i.Bytes("ofile"))), len(preCopy))
+					}
+				}
+				if i["exit"] == "0" && hasJS && string(i.Bytes("ofile")) != js {
+					return fmt.Sprintf("-o file holds %d bytes %q, GetRootJson of the library gives %d bytes %q", len(i.Bytes("ofile")), short(string(i.Bytes("ofile"))), len(js), short(js))
+				}
+				return ""
+			}
+		}
+		emit(c)
+	}
+}
+
+// ---- hostile selectors ---------------------------------------------------------------
+
+var c14HostileStrs = []string{", ", "a,b", ",", ",,", ")", "(", "[", "]", "{", "}", "([{", "}])", "),(", "],[", "a=b", "=", "-x", "--", "-", " ", "  two  spaces ", "# no comment", "/", "%s", "é,日本", "$", ";", "\\\\", "\\n", "\\t,", "x\\\\,", "k,1", "", "'", "\"", "it's, ok", "say \"hi\", ok", "[\"", "'}"}
+
+func c14HostileStrLit(r *rand.Rand) string {
+	s := pick(r, c14HostileStrs)
+	switch {
+	case strings.Contains(s, "'"):
+		return `"` + s + `"`
+	case strings.Contains(s, `"`):
+		return "'" + s + "'"
+	case chance(r, 0.5):
+		return `"` + s + `"`
+	}
+	return "'" + s + "'"
+}
+
+var c14HostileRegex = []string{"/a,b/", "/[,]/", "/x{1,2}/", "/(a|b),/", "/[)}]/", "/ /", "/=/", "/\"/", "/'/", "/,/", "/(,)/", "/[(]/", "/a|,|b/", "/^-/", "/[[]/", "/\\d,\\d/", "/{/"}
+
+type c14SelGen struct{ r *rand.Rand }
+
+func (g *c14SelGen) atom() string {
+	r := g.r
+	switch r.Intn(12) {
+	case 0, 1:
+		return pick(r, []string{"$", "$.a", "$.s", "$.list", "$.list[0]", "$.list[1]", "$.o.k", `$["a"]`, `$['k,1']`, `$["x y"]`, "$.nope"})
+	case 2, 3, 4, 5:
+		return c14HostileStrLit(r)
+	case 6:
+		return pick(r, c14HostileRegex)
+	case 7:
+		return pick(r, []string{"0", "1", "2.5", "10", "true", "false", "null", "u"})
+	case 8:
+		return "-" + pick(r, []string{"1", " 1", "$.a", "2.5"})
+	default:
+		return pick(r, []string{"$.s", "$.a", "$"})
+	}
+}
+
+func (g *c14SelGen) expr(d int) string {
+	r := g.r
+	if d <= 0 || chance(r, 0.25) {
+		return g.atom()
+	}
+	d--
+	sp := func() string { return pick(r, []string{" ", " ", "", "  ", "\t", "\n "}) }
+	switch r.Intn(22) {
+	case 0, 1, 2:
+		return g.expr(d) + sp() + "+" + sp() + c14HostileStrLit(r) + sp() + "+" + sp() + g.expr(d)
+	case 3:
+		return g.expr(d) + " " + pick(r, []string{"~", "!~"}) + " " + pick(r, c14HostileRegex)
+	case 4:
+		return g.expr(d) + " " + pick(r, []string{"==", "!=", "&&", "||"}) + " " + g.expr(d)
+	case 5, 6:
+		n := r.Intn(4)
+		parts := make([]string, n)
+		for i := range parts {
+			parts[i] = g.expr(d)
+		}
+		return "[" + strings.Join(parts, ","+sp()) + "]"
+	case 7, 8:
+		n := 1 + r.Intn(3)
+		parts := make([]string, n)
+		for i := range parts {
+			key := pick(r, []string{"k", "a", `"k,2"`, `'('`, `"]"`, `'a=b'`, `"-k"`, "k" + fmt.Sprint(i)})
+			parts[i] = key + ":" + sp() + g.expr(d)
+		}
+		return "{" + strings.Join(parts, ","+sp()) + "}"
+	case 9:
+		return c14HostileStrLit(r) + ".split(" + pick(r, []string{`","`, `', '`, `"="`, `")"`, `"["`}) + ")"
+	case 10:
+		return pick(r, []string{"$", "$.o", "{a: 1, b: ',', c: 3}"}) + ".pluck(" + pick(r, []string{`"a", "b"`, `'k,1', "a"`, `"a","x y",'s'`, `"k"`}) + ")"
+	case 11:
+		return "[" + g.expr(d) + ", " + g.expr(d) + "].contains(" + g.expr(d) + ")"
+	case 12:
+		return "(" + sp() + g.expr(d) + sp() + ")"
+	case 13:
+		return pick(r, []string{"json", "num"}) + "(" + g.expr(d) + ")"
+	case 14:
+		return "match (" + g.expr(d) + ") { 1, 2 => " + g.expr(d) + ", " + c14HostileStrLit(r) + " => " + g.expr(d) + ", x => " + pick(r, []string{"x", "[x, x]", "x + ', '"}) + " }"
+	case 15:
+		return "[" + g.expr(d) + ", " + g.expr(d) + "][" + pick(r, []string{"0", "1", "-1"}) + "]"
+	case 16:
+		return "{k: " + g.expr(d) + ", 'j,': 2}" + pick(r, []string{".k", `["k"]`, `['j,']`})
+	case 17:
+		return c14HostileStrLit(r) + pick(r, []string{".length()", ".upper()", ".lower()"})
+	case 18:
+		return "!" + g.expr(d)
+	case 19:
+		return pick(r, []string{"x", "y.z", "$.w"}) + " = " + g.expr(d)
+	case 20:
+		return g.expr(d) + pick(r, []string{" # c, [", "  # ) trailing ' comment", " #"})
+	default:
+		return g.expr(d) + sp() + pick(r, []string{"+", "-", "*", "<", ">="}) + sp() + g.expr(d)
+	}
+}
+
+// ill-formed selectors (and ones a comma-splitter would turn into something well-formed)
+var c14BadSels = []string{"[1, 2", ")", "$.a,", ",", "a,b", "1, 2", "", " ", "$.a, $.list", "$.list[0,1]", "'a', 'b'", "\"unterminated, ", "/unterminated,", "{k: 1", "$.a]", "(1", "f(1, 2", "$,$", ",$", "$ $", "--", "-", "=", "-r", "$.a -r $.list"}
+
+const c14SelDoc = `{"a": 1, "s": "x,y", "list": [10, "l,1", {"a": 2}], "o": {"k": "v", "a": 5}, "k,1": "comma key", "x y": [1]}`
+
+func c14HostileSelectors(r *rand.Rand, n int, emit func(Case)) {
+	gen := &c14SelGen{r: r}
+	progs := []c14Prog{{text: `{ print $ }`}, {text: `{ print "v:", $ }`}, {text: `{ }`}, {text: `END { print "end" }`}, {text: "BEGIN { print \"b\" }\n{ print $, $ }"}, {text: `$ is string { print "str", $.length() }`}}
+	for i := 0; i < n; i++ {
+		nsel := pick(r, []int{1, 1, 1, 1, 2, 2, 3})
+		var sels []string
+		wellFormed := true
+		for k := 0; k < nsel; k++ {
+			if chance(r, 0.12) {
+				sels = append(sels, pick(r, c14BadSels))
+				wellFormed = false
+			} else {
+				s := gen.expr(1 + r.Intn(3))
+				if chance(r, 0.1) {
+					s = pick(r, []string{" ", "\t", "\n"}) + s + pick(r, []string{" ", "\n", ""})
+				}
+				sels = append(sels, s)
+			}
+		}
+		if nsel >= 2 && chance(r, 0.15) {
+			sels[nsel-1] = sels[0] // the same selector twice: both count
+		}
+		prog := pick(r, progs)
+		oMode := pick(r, []string{"", "", "-", "-", "out.json"})
+		doc := c14SelDoc
+		if chance(r, 0.3) {
+			doc = "[" + c14SelDoc + ", {\"a\": \"second\", \"s\": \",\"}]"
+		}
+		if chance(r, 0.15) {
+			doc += "\n" + pick(r, []string{`"x,y"`, `[1, 2]`, `{"a": ","}`})
+		}
+		useStdin := chance(r, 0.3)
+		name := pick(r, []string{"in.json", "a,b.json", "x=y.json"})
+		var disk []CliFile
+		var names []string
+		lib := []File{{Name: "<stdin>", Data: []byte(doc)}}
+		var stdin []byte
+		if useStdin {
+			stdin = []byte(doc)
+		} else {
+			disk = []CliFile{{Name: name, Data: []byte(doc)}}
+			names = []string{name}
+			lib[0].Name = name
+		}
+		ofile := ""
+		if oMode != "" && oMode != "-" {
+			ofile = oMode
+		}
+		sc := &c14Scenario{prog: prog}
+		g := fmt.Sprintf("hsel-%d", i)
+		meta := func(argv []string, what string) map[string]string {
+			return metaProg(prog.text, "argv", strings.Join(argv, " ␣ "), "selectors", strings.Join(sels, " ␣ "), "variant", what, "input", doc, "-o", oMode)
+		}
+		argv := sc.argv(r, prog.text, sels, oMode, "", names)
+		emit(Case{ID: g + "/inline", Req: CliReq(argv, stdin, useStdin, disk, ofile), Fields: c14CliFields, Group: g,
+			Meta: meta(argv, "binary (first member of the group)"), Oracle: c14Basic, NonTrivial: c14NT})
+		if !(nsel == 1 && sels[0] == "") { // a single empty selector cannot be written in a run request
+			emit(Case{ID: g + "/lib", Req: RunReq(prog.text, sels, lib, oMode != ""), Fields: []string{"class", "out", "json"}, Group: g,
+				Meta:       meta(nil, "library run with the same selectors, unsplit and in order"),
+				GroupCheck: func(first, self Resp) string { return c14CliVsLib(first, self, oMode, 1) }})
+		}
+		// another spelling of the flags
+		argv2 := sc.argv(r, prog.text, sels, oMode, "", names)
+		if strings.Join(argv2, "\x00") != strings.Join(argv, "\x00") {
+			emit(Case{ID: g + "/respelled", Req: CliReq(argv2, stdin, useStdin, disk, ofile), Fields: c14CliFields, Group: g,
+				GroupFields: []string{"exit", "out", "stderr", "ofile", "ofexists"}, Meta: meta(argv2, "the flags spelled / placed differently"), Oracle: c14Basic, NonTrivial: c14NT})
+		}
+		// the README's equivalence is about expressions: a text that does not parse as one (a
+		// line break outside brackets ends it; `=> {` starts a block) fails later as a selector
+		// than as part of the program
+		if nsel == 1 && wellFormed && c14InProc("{ }", sels, lib, false)["class"] != "syntax" {
+			prog2 := "BEGINFILE { $ = " + sels[0] + "\n}\n" + prog.text
+			argv3 := sc.argv(r, prog2, nil, oMode, "", names)
+			emit(Case{ID: g + "/beginfile", Req: CliReq(argv3, stdin, useStdin, disk, ofile), Fields: c14CliFields, Group: g,
+				GroupFields: []string{"exit", "out", "ofile", "ofexists"}, Meta: meta(argv3, "BEGINFILE { $ = E } instead of -r E"), Oracle: c14Basic, NonTrivial: c14NT})
+		}
+		if nsel >= 2 && chance(r, 0.5) {
+			// the selectors in reverse order: the output lists the selections in reverse per value
+			// (checked through the library run of the reversed list)
+			rev := make([]string, nsel)
+			for k := range sels {
+				rev[nsel-1-k] = sels[k]
+			}
+			gr := g + "r"
+			argv4 := sc.argv(r, prog.text, rev, oMode, "", names)
+			emit(Case{ID: gr + "/inline", Req: CliReq(argv4, stdin, useStdin, disk, ofile), Fields: c14CliFields, Group: gr,
+				Meta: meta(argv4, "the selectors in reverse order"), Oracle: c14Basic, NonTrivial: c14NT})
+			emit(Case{ID: gr + "/lib", Req: RunReq(prog.text, rev, lib, oMode != ""), Fields: []string{"class", "out", "json"}, Group: gr,
+				Meta:       meta(nil, "library run with the reversed selectors"),
+				GroupCheck: func(first, self Resp) string { return c14CliVsLib(first, self, oMode, 1) }})
+		}
+	}
+}
+
+// ---- hostile program texts: inline <-> -f <-> library -------------------------------------
+
+var c14HostileProgs = []string{
+	`{ print "a,b", $ }`, `{ print "[" + $ + "]", ')', "{" }`, `{ print 'q"q', "q'q" }`, `{ print "back\\slash", "tab\there", "nl\nx" }`,
+	"\n\n{ print 1 / 0 }", "\n\n\n  { print $; x = nope() }", "{ print $ }\n\n", "  { print $ }  ", "{ print $ }\r\n", "\r\n{ print $ }\r\n{ print 2 }", "# only a comment",
+	"{ print $ } # trailing [, comment", "\t", " ", "\n", "\n\n\n", "{ print \"unterminated  ", "{ print $ }\n'", "\n \n{ print @ }", "{ print 1 }\n\n\n}",
+	`{ printf("%s,%s\n", 1, "x") }`, `$ ~ /a,b|[)]/ { print "m" }`, `{ x = {"k,": [1, 2], '(': ")"}; print x }`,
+	"function f(a, b) { return a + \",\" + b }\n{ print f($, \"=\") }", `{ print "-o", "-r", "--", "-f=x" }`, `{ print "é, 日本", "\xff\xfe" }`,
+	`-1 { print "negative pattern" }`, `- 1 { print "dash space" }`, `--x { print "predecrement" }`, `-o`, `-r`, `--`, `-`, `-f`, `-h`, `=`, `-=`,
+	"{ print \"cr\r\nlf inside a string\", 'tab\there' }\r\n", "{ print \"trailing blanks inside   \n\" }", "{ print \" \" + $ + \" \" }",
+	"{ print \"tail\" }\n#", "{ print \"tail\" } #", "{\n\tprint \"tabs\"\n}\n", "{ print 1 };", "BEGIN { print \"x\" }\n\n\n\nEND { print 2 / 0 }\n\n",
+}
+
+func c14HostilePrograms(r *rand.Rand, n int, emit func(Case)) {
+	docs := []string{`["a,b", 2]`, `{"a": 1}`, `"a,b)"`, "1 2\n3", `[[1, 2], "x"]`, ``}
+	pfNames := []string{"prog.jqawk", "p", "a,b.awk", "p q", "=x", "é.awk", "-prog", "sub/[1].awk", "x=y"}
+	for i := 0; i < n; i++ {
+		var prog string
+		if i < len(c14HostileProgs) {
+			prog = c14HostileProgs[i]
+		} else if chance(r, 0.6) {
+			prog = pick(r, c14HostileProgs)
+		} else {
+			files, firstArr, nvals := c02Inputs(r)
+			_ = files
+			cg := &c02Gen{r: r, firstArr: firstArr, idxSafe: false, nvals: nvals, used: map[string]bool{}}
+			prog = pick(r, []string{"", "\n", "\n\n# c\n", "  ", "\r\n"}) + cg.program().text + pick(r, []string{"", "\n", "\n\n", "  ", "\r\n", "\n# end"})
+		}
+		doc := pick(r, docs)
+		oMode := pick(r, []string{"", "", "-", "out.json"})
+		ofile := ""
+		if oMode != "" && oMode != "-" {
+			ofile = oMode
+		}
+		dashes := strings.HasPrefix(prog, "-") || chance(r, 0.2)
+		if strings.HasPrefix(prog, "-") && chance(r, 0.25) {
+			dashes = false // taken as flags: whatever flag.Parse does with it (compared with the model only)
+		}
+		name := pick(r, []string{"in.json", "a,b.json", "-r", "--", "x=y", "sp ace.json", "q\"q.json", "b\\s.json", "[1].json", "é.json", "-"})
+		useStdin := chance(r, 0.3)
+		var disk []CliFile
+		var names []string
+		lib := []File{{Name: "<stdin>", Data: []byte(doc)}}
+		var stdin []byte
+		if useStdin {
+			stdin = []byte(doc)
+		} else {
+			disk = []CliFile{{Name: name, Data: []byte(doc)}}
+			names = []string{name}
+			lib[0].Name = name
+		}
+		var sels []string
+		if chance(r, 0.25) {
+			sels = []string{pick(r, []string{"$", "[$, ', ']", "$"})}
+		}
+		sc := &c14Scenario{prog: c14Prog{text: prog}, dashes: dashes}
+		g := fmt.Sprintf("hprog-%d", i)
+		meta := func(argv []string, what string) map[string]string {
+			return metaProg(prog, "argv", strings.Join(argv, " ␣ "), "variant", what, "input", doc, "-o", oMode)
+		}
+		argv := sc.argv(r, prog, sels, oMode, "", names)
+		first := Case{ID: g + "/inline", Req: CliReq(argv, stdin, useStdin, disk, ofile), Fields: c14CliFields, Group: g,
+			Meta: meta(argv, "inline program (first member of the group)"), Oracle: c14Basic, NonTrivial: c14NT}
+		if !dashes && strings.HasPrefix(prog, "-") {
+			first.Oracle = nil // may be -h: usage on stderr with status 0
+		}
+		emit(first)
+		if dashes || !strings.HasPrefix(prog, "-") {
+			emit(Case{ID: g + "/lib", Req: RunReq(prog, sels, lib, oMode != ""), Fields: []string{"class", "out", "json"}, Group: g,
+				Meta:       meta(nil, "library run of the same text"),
+				GroupCheck: func(first, self Resp) string { return c14CliVsLib(first, self, oMode, 1) }})
+			if prog != "" { // -f with an empty file is -f; an empty inline program is an argument
+				pf := pick(r, pfNames)
+				for pf == name {
+					pf = pick(r, pfNames)
+				}
+				// with -f every argument is an input: one that starts with a dash needs --
+				scF := &c14Scenario{prog: sc.prog, dashes: chance(r, 0.2) || (len(names) > 0 && strings.HasPrefix(names[0], "-"))}
+				argvF := scF.argv(r, "", sels, oMode, pf, names)
+				emit(Case{ID: g + "/dash-f", Req: CliReq(argvF, stdin, useStdin, append(append([]CliFile{}, disk...), CliFile{Name: pf, Data: []byte(prog)}), ofile), Fields: c14CliFields,
+					Group: g, GroupFields: []string{"exit", "out", "stderr", "ofile", "ofexists"},
+					Meta: meta(argvF, "-f FILE holding exactly the same bytes"), Oracle: c14Basic, NonTrivial: c14NT})
+			}
+		}
+	}
+}
+
+// ---- argument shapes: empty arguments, flag look-alikes after the flags ended ------------------
+
+func c14ArgShapes(r *rand.Rand, rounds int, emit func(Case)) {
+	doc := []byte(`[1, "a,b"]`)
+	p := `{ print $ }`
+	type shape struct {
+		what  string
+		argv  []string
+		stdin bool
+		files []CliFile
+		ofile string
+		basic bool // apply the exit/diagnostic oracle
+	}
+	f := func(names ...string) []CliFile {
+		var fs []CliFile
+		for _, n := range names {
+			fs = append(fs, CliFile{Name: n, Data: doc})
+		}
+		return fs
+	}
+	shapes := []shape{
+		{"file named -r after the program", []string{p, "-r"}, false, f("-r"), "", true},
+		{"file named -o after the program, then another", []string{p, "-o", "in.json"}, false, f("-o", "in.json"), "", true},
+		{"file named -- after the program", []string{p, "--"}, false, f("--"), "", true},
+		{"-- then program then a file named -f", []string{"--", p, "-f"}, false, f("-f"), "", true},
+		{"-- -- : the program is --", []string{"--", "--", "in.json"}, false, f("in.json"), "", true},
+		{"-- alone: empty program, stdin", []string{"--"}, true, nil, "", true},
+		{"-- then a program that looks like a flag", []string{"--", "-o", "in.json"}, false, f("in.json"), "", true},
+		{"file named - ", []string{p, "-"}, false, f("-"), "", true},
+		{"a lone - as the program", []string{"-", "in.json"}, false, f("in.json"), "", true},
+		{"empty program, stdin", []string{""}, true, nil, "", true},
+		{"empty program, a file", []string{"", "in.json"}, false, f("in.json"), "", true},
+		{"empty file name", []string{p, ""}, false, f("in.json"), "", true},
+		{"empty file name after a good one", []string{p, "in.json", ""}, false, f("in.json"), "", true},
+		{"empty selector", []string{"-r", "", p, "in.json"}, false, f("in.json"), "", true},
+		{"empty selector via =", []string{"-r=", p, "in.json"}, false, f("in.json"), "", true},
+		{"empty -o value: no -o", []string{"-o", "", p, "in.json"}, false, f("in.json"), "", true},
+		{"empty -o value via =", []string{"-o=", p, "in.json"}, false, f("in.json"), "", true},
+		{"empty -f value: the program is inline", []string{"-f", "", p, "in.json"}, false, f("in.json"), "", true},
+		{"empty -f value via =", []string{"-f=", p, "in.json"}, false, f("in.json"), "", true},
+		{"-f set, then reset to empty", []string{"-f", "prog", "-f", "", p, "in.json"}, false, append(f("in.json"), CliFile{Name: "prog", Data: []byte(`{ print "from file" }`)}), "", true},
+		{"-f given twice: the last one counts", []string{"-f", "p1", "-f", "p2", "in.json"}, false, append(f("in.json"), CliFile{Name: "p1", Data: []byte(`{ print "one" }`)}, CliFile{Name: "p2", Data: []byte(`{ print "two" }`)}), "", true},
+		{"-o given twice: the last one counts", []string{"-o", "first.json", "-o", "second.json", p, "in.json"}, false, f("in.json"), "second.json", true},
+		{"-o given twice: the first is not written", []string{"-o", "first.json", "-o", "second.json", p, "in.json"}, false, f("in.json"), "first.json", true},
+		{"-o value is -r", []string{"-o", "-r", p, "in.json"}, false, f("in.json"), "-r", true},
+		{"-o value is --", []string{"-o", "--", p, "in.json"}, false, f("in.json"), "--", true},
+		{"-o=- via =", []string{"-o=-", p, "in.json"}, false, f("in.json"), "", true},
+		{"--o=- two dashes", []string{"--o=-", p, "in.json"}, false, f("in.json"), "", true},
+		{"-r value is --", []string{"-r", "--", p, "in.json"}, false, f("in.json"), "", true},
+		{"-r value is -o", []string{"-r", "-o", p, "in.json"}, false, f("in.json"), "", true},
+		{"-r value with = via =", []string{"-r=x=$[1]", p, "in.json"}, false, f("in.json"), "", true},
+		{"-r value starting with = via =", []string{"-r==1", p, "in.json"}, false, f("in.json"), "", true},
+		{"-r value is a negative number", []string{"-r", "-1", p, "in.json"}, false, f("in.json"), "", true},
+		{"-r=-1", []string{"-r=-1", p, "in.json"}, false, f("in.json"), "", true},
+		{"three dashes", []string{"---o", "-", p, "in.json"}, false, f("in.json"), "", true},
+		{"-=x", []string{"-=x", p, "in.json"}, false, f("in.json"), "", true},
+		{"--=x", []string{"--=x", p, "in.json"}, false, f("in.json"), "", true},
+		{"-rx: no such flag", []string{"-rx", p, "in.json"}, false, f("in.json"), "", true},
+		{"-r after the program: a file name", []string{p, "in.json", "-r", "$[0]"}, false, f("in.json"), "", true},
+		{"-h", []string{"-h"}, false, nil, "", false},
+		{"-help after -r", []string{"-r", "$", "-help", p}, false, nil, "", false},
+		{"program with a comma and a file with a comma", []string{`{ print $file, "a,b" }`, "a,b.json", "c,d.json"}, false, f("a,b.json", "c,d.json"), "", true},
+		{"selector that is only a string with a comma", []string{"-r", `"a,b"`, p, "in.json"}, false, f("in.json"), "", true},
+		{"no arguments, stdin", nil, true, nil, "", true},
+	}
+	for round := 0; round < rounds; round++ {
+		for si, s := range shapes {
+			var stdin []byte
+			if s.stdin {
+				stdin = doc
+			}
+			c := Case{ID: fmt.Sprintf("shape-%d-%d", round, si), Req: CliReq(s.argv, stdin, s.stdin, s.files, s.ofile), Fields: c14CliFields, NonTrivial: c14NT,
+				Meta: map[string]string{"what": s.what, "argv": strings.Join(s.argv, " ␣ ")}}
+			if s.basic {
+				c.Oracle = c14Basic
+			}
+			emit(c)
+			if round > 0 {
+				break // the list is deterministic; later rounds only add the random part below
+			}
+		}
+		// random: a value-taking flag followed by a hostile value, both spellings
+		for k := 0; k < 20; k++ {
+			val := pick(r, append(append([]string{}, c14HostileStrs...), "-r", "-o", "-f", "--", "-", "", "$", "x=1", "=", "-1"))
+			flagName := pick(r, []string{"r", "o", "f"})
+			if flagName != "r" && strings.Contains(val, "/") {
+				continue
+			}
+			argv := append(c14Flag(r, flagName, val), p, "in.json")
+			files := f("in.json")
+			of := ""
+			if flagName == "o" && val != "" && val != "-" {
+				of = val
+			}
+			if flagName == "f" && val != "" {
+				files = append(files, CliFile{Name: val, Data: []byte(`{ print "prog file", $ }`)})
+				argv = append(c14Flag(r, flagName, val), "in.json")
+			}
+			emit(Case{ID: fmt.Sprintf("shape-%d-rand%d", round, k), Req: CliReq(argv, nil, false, files, of), Fields: c14CliFields, NonTrivial: c14NT, Oracle: c14Basic,
+				Meta: map[string]string{"what": "-" + flagName + " with a hostile value", "argv": strings.Join(argv, " ␣ ")}})
+		}
+	}
+}
+
+func init() {
+	noBin := func(emit func(Case)) bool {
+		if os.Getenv("JQAWK_BIN") != "" {
+			return false
+		}
+		emit(Case{ID: "no-binary", Req: "cli - - - -", ImplOnly: true, Oracle: c14Basic,
+			Meta: map[string]string{"problem": "env JQAWK_BIN is not set; the C14 families run the real binary"}})
+		return true
+	}
+	register(Family{
+		Name: "cli-o-existing", Prop: "C14",
+		Rule: "-o FILE where FILE already exists -- longer than / one byte longer than / equal to / shorter than the JSON to be written (the length is learnt by running the library in the generator), 70 kB, empty, the input file itself (in-place edit), the -f program file, read-only -- or cannot be created (a directory, in a missing directory, below a regular file), in an existing sub-directory, /dev/full, /dev/null; programs that keep, shrink, grow or replace the document and ones that fail (division by zero, syntax error, exit in BEGIN, cyclic document); one Group per scenario with the -o - run first: file content = what -o - printed after the program's output (exactly, nothing of the old content left), a failed run leaves the existing file untouched; every case is also compared with the model of the wrapper",
+		Gen: func(r *rand.Rand, tier string, emit func(Case)) {
+			if noBin(emit) {
+				return
+			}
+			c14OExisting(r, tierN(tier, 180, 5400), emit)
+		},
+	})
+	register(Family{
+		Name: "cli-hostile-args", Prop: "C14",
+		Rule: "(a) 1-3 -r selectors drawn from an expression generator: string literals in both quote styles and regex literals containing commas, all three kinds of brackets balanced and unbalanced, quotes, backslashes, blanks, leading dashes, '='; array and object literals, calls with several arguments, match with several patterns, comments, assignments; plus ill-formed ones; each scenario: binary (compared with the model), library run with the same selector list (tie), the flags respelled (-r=E, --r E, other places), -r E <-> BEGINFILE { $ = E }, reversed order; (b) program texts with the same characters, leading / trailing blank lines, CRLF, no final newline, leading dashes: inline <-> library <-> -f FILE (stdout, stderr, exit, -o file identical), program-file and input-file names with commas, '=', blanks, quotes, leading dashes; (c) argument shapes: empty arguments in every position, flag look-alikes after the flags ended and as flag values, repeated -f / -o, -r=x=y, bad flag syntax",
+		Gen: func(r *rand.Rand, tier string, emit func(Case)) {
+			if noBin(emit) {
+				return
+			}
+			c14HostileSelectors(r, tierN(tier, 220, 6000), emit)
+			c14HostilePrograms(r, tierN(tier, 90, 2500), emit)
+			c14ArgShapes(r, tierN(tier, 1, 12), emit)
 		},
 	})
 }
